@@ -152,6 +152,13 @@ class AddCyclicMemoryLayout(RewritePattern):
                             if stride % schedule_bound != 0 and bound != schedule_bound:
                                 to_tile = False
 
+                # the outermost schedule dim that accesses this operand dim takes all that is left of it:
+                # a schedule may access an operand only partially (strided / windowed access), the layout must
+                # still cover the complete operand
+                outer_accesses = np.flip(schedule.pattern.A, axis=1)[accessed_dim, schedule_dim + 1 :]
+                if not np.any(outer_accesses != 0):
+                    to_tile = False
+
                 if to_tile:
                     layout_bound = schedule_bound
                 else:
